@@ -1181,6 +1181,9 @@ class Evaluator:
             return _minmax("max", args[0], args[1])
         if re.search(r"(cmp::Ord::min|cmp::min|num::<impl \w+>::min)$", c) or c.endswith("::min") and len(args) == 2 and c.startswith(("core::", "std::")):
             return _minmax("min", args[0], args[1])
+        if re.search(r"(cmp::Ord::clamp|num::<impl \w+>::clamp|cmp::Ord for \w+>::clamp)$", c) and len(args) == 3 and all(_numeric(a) for a in args):
+            # x.clamp(lo, hi) = min(hi, max(lo, x)) (it asserts lo <= hi: data_offset <= cap is an arena invariant, C16-L3)
+            return _minmax("min", args[2], _minmax("max", args[1], args[0]))
         if re.search(r"num::<impl u\w+>::saturating_sub$", c):
             return ("satsub", args[0], args[1])
         if re.search(r"num::<impl i\w+>::saturating_(add|sub)$", c):
